@@ -357,7 +357,24 @@ fn case(m: &mut Mon, r: &mut Rng, _idx: u64) {
                 let mut t = xi.clone();
                 let r2 = t.div_rem_assign(&cd);
                 eq_i(&t, &wq, "i.div_rem_assign(cd).q")?;
-                eq_i(&r2, &wr, "i.div_rem_assign(cd).r")
+                eq_i(&r2, &wr, "i.div_rem_assign(cd).r")?;
+                // the const divisibility test takes a double-word divisor: against the model remainder, and on
+                // multiples built in the model (a*d divisible, a*d + 1 not when d > 1), both signs
+                let d128: u128 = (b[0] as u128) | ((if b.len() > 1 { b[1] } else { 0 }) as u128) << 64;
+                // (DoubleWord is u64 in the 32-bit-word builds of C19)
+                if let (true, Ok(d)) = (lb <= 2, dashu_int::DoubleWord::try_from(d128)) {
+                    ensure!(x.is_multiple_of_const(d) == wr.is_zero(), "value", "UBig::is_multiple_of_const({:#x}) = {} but a % d = {}", d, x.is_multiple_of_const(d), show_int(&wr));
+                    ensure!(xi.is_multiple_of_const(d) == wr.is_zero(), "value", "IBig::is_multiple_of_const({:#x}) = {} but a % d = {}", d, xi.is_multiple_of_const(d), show_int(&wr));
+                    let prod = nat(&a) * nat(&b);
+                    let pu = ubig(&limbs_of_nat(&prod));
+                    ensure!(pu.is_multiple_of_const(d), "value", "(a*d).is_multiple_of_const(d) is false, d = {:#x}", d);
+                    ensure!((-IBig::from(pu.clone())).is_multiple_of_const(d), "value", "(-a*d).is_multiple_of_const(d) is false, d = {:#x}", d);
+                    if d > 1 {
+                        let p1 = ubig(&limbs_of_nat(&(prod + 1u32)));
+                        ensure!(!p1.is_multiple_of_const(d), "value", "(a*d+1).is_multiple_of_const(d) is true, d = {:#x}", d);
+                    }
+                }
+                Ok(())
             });
         }
         9 => {
